@@ -59,7 +59,7 @@ class NullCacher(Cacher[_K, _V]):
         pass
 
     def get_set(self, key: _K, getter: Union[Callable[[], _V],_V]) -> ContextManager[_V]:
-        return nullcontext(getter())
+        return nullcontext(getter() if callable(getter) else getter)
 
 class MemoryCacher(Cacher[_K, _V]):
     """A cacher that caches in memory."""
